@@ -870,6 +870,39 @@ fn check_credential_claims(c: &CredentialClaims, obs: &mut Obs) -> CheckResult {
           c.iat
         );
       }
+      // ids signed only inside `vc` (no jti / sub): accepted => not dropped silently
+      if !c.jti {
+        let signed = match c.vc_id {
+          Dup::Absent => None,
+          Dup::Equal => Some(CRED_ID),
+          Dup::Different => Some(CRED_ID_OTHER),
+        };
+        if let Some(id) = signed {
+          vensure!(
+            obs,
+            got.get("id") == Some(&json!(id)),
+            "vc-id-without-jti-accepted-and-dropped",
+            "claims {claims} were accepted but the returned credential has id {:?} instead of the signed vc.id {id}",
+            got.get("id")
+          );
+        }
+      }
+      if !c.sub {
+        let signed = match c.vc_subject_id {
+          Dup::Absent => None,
+          Dup::Equal => Some(SUBJECT_ID),
+          Dup::Different => Some(SUBJECT_ID_OTHER),
+        };
+        if let Some(id) = signed {
+          vensure!(
+            obs,
+            got["credentialSubject"].get("id") == Some(&json!(id)),
+            "vc-subject-id-without-sub-accepted-and-dropped",
+            "claims {claims} were accepted but the returned subject id is {:?} instead of the signed {id}",
+            got["credentialSubject"].get("id")
+          );
+        }
+      }
       if let Verdict::Accept = v {
         let mut want = json!({
           "@context": [BASE_CONTEXT, EXAMPLES_CONTEXT],
@@ -1038,6 +1071,24 @@ fn check_presentation_claims(c: &PresentationClaims, obs: &mut Obs) -> CheckResu
           c.nbf,
           c.iat
         );
+      }
+      // An id that is signed only inside `vp` (no jti) may be refused; if the token is accepted the id must not be
+      // dropped silently ("rejected rather than silently resolved").
+      if !c.jti {
+        let signed = match c.vp_id {
+          Dup::Absent => None,
+          Dup::Equal => Some(PRES_ID),
+          Dup::Different => Some(PRES_ID_OTHER),
+        };
+        if let Some(id) = signed {
+          let got_id = serde_json::to_value(&decoded.presentation).ok().and_then(|p| p.get("id").cloned());
+          vensure!(
+            obs,
+            got_id == Some(json!(id)),
+            "vp-id-without-jti-accepted-and-dropped",
+            "claims {claims} were accepted but the returned presentation has id {got_id:?} instead of the signed vp.id {id}"
+          );
+        }
       }
       if let Verdict::Accept = v {
         let mut want = json!({
